@@ -338,6 +338,33 @@ func dropPkg(c *Scenario, pi int) bool {
 			}
 		}
 	}
+	// ops that address a package by index (touch, retag)
+	fix := func(ops []Op) bool {
+		for i := range ops {
+			if ops[i].Kind != "touch" && ops[i].Kind != "retag" {
+				continue
+			}
+			if ops[i].K == pi {
+				return false
+			}
+			if ops[i].K > pi {
+				ops[i].K--
+			}
+		}
+		return true
+	}
+	probe := cloneScenario(c)
+	okOps := fix(probe.Setup)
+	for vi := range probe.Variants {
+		okOps = okOps && fix(probe.Variants[vi].Ops)
+	}
+	if !okOps {
+		return false
+	}
+	fix(c.Setup)
+	for vi := range c.Variants {
+		fix(c.Variants[vi].Ops)
+	}
 	m.Pkgs = append(m.Pkgs[:pi], m.Pkgs[pi+1:]...)
 	for _, p := range m.Pkgs {
 		for k := range p.Imports {
@@ -372,7 +399,7 @@ func Minimise(env *Env, sc *Scenario, key string, budget time.Duration) *Scenari
 			if cand == nil {
 				continue
 			}
-			out, err := ExecuteScenario(env, cand)
+			out, err := safeExecute(env, cand)
 			env.Stats.Add("minimiser-executions", 1)
 			if err != nil {
 				continue
@@ -436,4 +463,14 @@ func moduleValid(m *ModuleSpec) bool {
 		}
 	}
 	return true
+}
+
+// safeExecute runs a reduction candidate; a candidate the executor cannot digest is simply rejected.
+func safeExecute(env *Env, sc *Scenario) (out *Outcome, err error) {
+	defer func() {
+		if r := recover(); r != nil {
+			out, err = nil, infra("candidate rejected: %v", r)
+		}
+	}()
+	return ExecuteScenario(env, sc)
 }
